@@ -88,6 +88,8 @@ def build_crate(workdir, kspecs):
             seen_mods.add((md["file"], md["name"]))
             sf = sources.src(md["file"])
             code = md["code"]
+            for sl in md.get("slices", []):
+                code = make_slice(sl) + "\n" + code
             for lf in md.get("lift", []):
                 lsf = sources.src(lf["file"])
                 ltxt, lloc = lsf.fn_text(lf["fn"], lf.get("within"), lf.get("nth", 0))
@@ -121,6 +123,58 @@ def build_crate(workdir, kspecs):
         with open(os.path.join(crate, rel), "w") as f:
             f.write(woven)
     return dict(crate=crate, functions=fn_infos, woven_files=sorted(per_file))
+
+
+def make_slice(sl):
+    """Lift verbatim statements (and optionally a closure body) of a repository
+    function into a stand-alone fn, see DESIGN.md 2.3.
+      sl = {name, file, fn, within?, nth?, stmts_from, stmts_to, closure?: anchor of `|args| body` call,
+            params, ret, pre?, post?}
+    Copied verbatim: the statements in [stmts_from, stmts_to) and the closure body.
+    Dropped: the iterator driver around the closure."""
+    sf = sources.src(sl["file"])
+    loc = sf.find_fn(sl["fn"], sl.get("within"), sl.get("nth", 0))
+    lo, hi = loc["body_open"], loc["body_close"]
+    body_m = sf.masked[lo:hi]
+
+    def one(anchor):
+        idx = [m.start() for m in re.finditer(re.escape(anchor), body_m)]
+        if len(idx) != 1:
+            raise sources.AnchorLost("slice %s: anchor %r matched %d times in %s" % (sl["name"], anchor, len(idx), sl["fn"]))
+        return lo + idx[0]
+
+    parts = []
+    if sl.get("stmts_from"):
+        a = one(sl["stmts_from"])
+        a = sf.text.rfind("\n", 0, a) + 1
+        b = one(sl["stmts_to"])
+        b = sf.text.rfind("\n", 0, b) + 1
+        parts.append(sf.text[a:b])
+    tail = sl.get("post", "")
+    if sl.get("closure"):
+        c = one(sl["closure"])
+        # the call's opening parenthesis is the first '(' of the anchor
+        op = sf.masked.index("(", c)
+        depth, j = 0, op
+        while True:
+            ch = sf.masked[j]
+            if ch in "([{":
+                depth += 1
+            elif ch in ")]}":
+                depth -= 1
+                if depth == 0:
+                    break
+            j += 1
+        inner = sf.text[op + 1:j]
+        m = re.match(r"\s*(?:move\s+)?\|[^|]*\|\s*", inner)
+        if not m:
+            raise sources.AnchorLost("slice %s: no closure at anchor" % sl["name"])
+        parts.append("        " + inner[m.end():].strip() + "\n")
+    body = "".join(parts)
+    return ("    // slice lifted verbatim from %s fn %s (line %d); driver around the closure dropped\n"
+            "    pub(crate) fn %s(%s) -> %s {\n%s%s%s    }\n" % (sl["file"], sl["fn"], loc["line"], sl["name"], sl["params"], sl["ret"],
+                                                             ("        " + sl["pre"].strip() + "\n") if sl.get("pre") else "", body,
+                                                             ("        " + tail.strip() + "\n") if tail else ""))
 
 
 class _Watchdog(threading.Thread):
